@@ -18,7 +18,9 @@ Inductive block := Blk (ls : list label) (o : obs).
 Record connres := mkCR {
   cr_status : Z;     (* status of the first response the client received; 0 = nothing written; -1 = neither served nor rejected *)
   cr_entered : Z;    (* handler invocations *)
-  cr_closed : Z      (* Close calls on the scripted net.Conn *)
+  cr_closed : Z;     (* Close calls on the scripted net.Conn *)
+  cr_live : Z        (* sequential replay: connections of the same IPv4 address that had been admitted and whose net.Conn was not yet closed
+                        when this one arrived, everything being at rest (-1: not known, concurrent run) *)
 }.
 
 Inductive c12case :=
@@ -89,9 +91,12 @@ Definition corr_ok (c : c12case) : bool :=
   end.
 
 (* ---- the property, judged on what the implementation did ---------------------------------------- *)
-Definition conn_prop (x : connres) : bool :=
+Definition conn_prop (cf : cfg) (x : connres) : bool :=
   if (cr_status x =? StatusTooManyRequests) || (cr_status x =? StatusServiceUnavailable)
   then (cr_entered x =? 0) && (1 <=? cr_closed x)       (* rejected: answered 429 / 503, closed, never served *)
+       (* 429 is for EXTRA connections: with everything at rest, fewer than MaxConnsPerIP open connections of the address means it must be
+          admitted (a per-IP unit that was not given back - e.g. after a Close that returned an error - would lock the address out) *)
+       && (if cr_status x =? StatusTooManyRequests then (cr_live x <? 0) || (maxip cf <=? cr_live x) else true)
   else negb (cr_status x =? -1).                          (* every connection is served or rejected *)
 
 Definition live_prop (cf : cfg) (l : list (N * Z)) : bool :=
@@ -108,11 +113,11 @@ Definition zero_obs (o : obs) : bool :=
 Definition prop_ok (c : c12case) : bool :=
   match c with
   | CReplay cf documented drained _ bs conns peak =>
-      forallb conn_prop conns && forallb (block_prop cf documented) bs
+      forallb (conn_prop cf) conns && forallb (block_prop cf documented) bs
       && (if documented then peak <=? effConc cf else true)
       && (if drained then match rev bs with Blk _ o :: _ => zero_obs o | [] => true end else true)
   | CStress cf documented conns peak peaklive final =>
-      forallb conn_prop conns && (if documented then peak <=? effConc cf else true)
+      forallb (conn_prop cf) conns && (if documented then peak <=? effConc cf else true)
       && live_prop cf peaklive && zero_obs final
   | CStale _ victim _ _ _ => negb victim     (* a Close made for connection 0 must not close connection 1 *)
   | CUnstable => true
